@@ -235,15 +235,28 @@ class Interner:
 
 
 def post_use(classes, sub, intern):
-    """what a later sequential user sees: instances of the leaf (and of the plain subclass)"""
+    """what a later sequential user sees: instances of the leaf (and of the plain subclass).
+    Runs in a helper thread with a time limit: after a broken run a traced lock can stay held
+    by a thread that died at the recursion limit (the Python-level __exit__ of the traced
+    lock needs a frame, the real RLock does not)."""
+    import threading
+    fresh_locks()
     out = []
-    for T in ([classes[-1]] + ([sub] if sub is not None else [])):
-        try:
-            o = T()
-            out += [1, intern("r:" + repr(o)), intern("m:" + repr(getattr(o, "_made_by", ())))]
-        except BaseException as e:  # noqa: BLE001
-            out += [0, intern("E:" + type(e).__name__)]
-    return out
+
+    def work():
+        for T in ([classes[-1]] + ([sub] if sub is not None else [])):
+            try:
+                o = T()
+                out.extend([1, intern("r:" + repr(o)), intern("m:" + repr(getattr(o, "_made_by", ())))])
+            except BaseException as e:  # noqa: BLE001
+                out.extend([0, intern("E:" + type(e).__name__)])
+
+    th = threading.Thread(target=work, daemon=True)
+    th.start()
+    th.join(10)
+    if th.is_alive():
+        return [0, intern("E:<later use blocks>")]
+    return list(out)
 
 
 def run_eager(desc, uses, intern):
